@@ -189,6 +189,11 @@ class GroupBCD(BaseSolver):
                         )
 
                     stop_crit_in = np.max(opt_ws)
+                    if self.fit_intercept:
+                        # same criterion as in the outer loop: the subproblem is
+                        # not solved while the intercept is not optimal
+                        stop_crit_in = max(stop_crit_in, np.abs(
+                            datafit.intercept_update_step(y, Xw)))
 
                     if max(self.verbose - 1, 0):
                         p_obj = datafit.value(y, w, Xw) + penalty.value(w[:n_features])
